@@ -59,7 +59,8 @@ def required(tier):
            'threads:configuration-loaded-in-another-thread-is-active-here',
            'overlay:list-valued-setting-in-file-and-kwargs',
            'questionable-load:with-warnings-as-errors', 'paths:relative-to-working-directory',
-           'mutate:any-public-attribute:refused', 'mutate-any:config.emissions.enabled_species']
+           'mutate:any-public-attribute:refused', 'mutate-any:config.emissions.enabled_species',
+           'overlay:weather-directory-unset']
     return {'classes': cl, 'evaluations': 5000}
 
 
@@ -132,7 +133,7 @@ class Machine:
                         self.outside / 'local' / 'model_c.toml')
 
     # -- generators ---------------------------------------------------------------
-    def gen_overlay(self, allow_paths=True) -> dict:
+    def gen_overlay(self, allow_paths=True, allow_none=False) -> dict:
         rng = self.rng
         o: dict = {}
         em = {k: rng.choice(v) for k, v in EMIS_CHOICES.items() if rng.random() < 0.3}
@@ -143,6 +144,11 @@ class Machine:
             wx['use_weather'] = rng.choice([True, False])
         if allow_paths and rng.random() < 0.2:
             wx['weather_data_dir'] = rng.choice(['weather', 'wx2'])
+        elif allow_paths and allow_none and rng.random() < 0.15:
+            # no weather directory at all (legal: the setting is optional; only keyword
+            # arguments can say so, TOML has no null)
+            wx['weather_data_dir'] = None
+            wx['use_weather'] = False
         if wx:
             o['weather'] = wx
         if allow_paths and rng.random() < 0.2:
@@ -191,8 +197,11 @@ class Machine:
             probes.append((f'emissions.{k}', got_s, exp_s))
         probes.append(('weather.use_weather', cfg.weather.use_weather,
                        exp['weather']['use_weather']))
-        probes.append(('weather.weather_data_dir', Path(cfg.weather.weather_data_dir).name,
-                       Path(exp['weather']['weather_data_dir']).name))
+        _wd, _we = cfg.weather.weather_data_dir, exp['weather']['weather_data_dir']
+        probes.append(('weather.weather_data_dir', None if _wd is None else Path(_wd).name,
+                       None if _we is None else Path(_we).name))
+        if _we is None:
+            self.rec.cls('overlay:weather-directory-unset')
         probes.append(('performance_model', Path(config.performance_model).name,
                        Path(exp['performance_model']).name))
         probes.append(('engine_file', Path(cfg.engine_file).name,
@@ -207,6 +216,8 @@ class Machine:
                 self.fail('effective configuration value differs from defaults<-file<-kwargs',
                           key=name, got=got, expected=want, where=where)
         for p in (cfg.performance_model, cfg.engine_file, cfg.weather.weather_data_dir):
+            if p is None:
+                continue
             if not Path(p).is_absolute() or not Path(p).exists():
                 self.fail('configured path was not resolved to an existing absolute path',
                           path=str(p), where=where)
@@ -218,7 +229,7 @@ class Machine:
         rng = self.rng
         how = rng.choice(['kwargs', 'file', 'both'])
         file_o = self.gen_overlay() if how in ('file', 'both') else {}
-        kw_o = self.gen_overlay() if how in ('kwargs', 'both') else {}
+        kw_o = self.gen_overlay(allow_none=True) if how in ('kwargs', 'both') else {}
         if how == 'both' and rng.random() < 0.6:
             # force a nested-key conflict: file and kwargs set different keys AND the same key
             file_o.setdefault('emissions', {})['nox_method'] = 'none'
